@@ -39,12 +39,12 @@ theorem mem_replaceAlloc {s : State} {a x : Alloc} (h : x ∈ (replaceAlloc s a)
 /-- the changes a request or a relay-side event can make to one existing allocation -/
 inductive Change (c : Cfg) (now : Nat) : Alloc → Alloc → Prop
   | refresh (a : Alloc) (e : Nat) (h : now < e) : Change c now a { a with expiry := e }
-  | perm (a : Alloc) (ip : IP) (hg : granted c a.key.lid ip = true) (hf : famOK ip a.fam = true) :
+  | perm (a : Alloc) (ip : IP) (hg : granted c a.key ip = true) (hf : famOK ip a.fam = true) :
       Change c now a (addPerm now c.permT ip a)
   | chan (a : Alloc) (n : Nat) (p : Addr) (hv : chanValid n = true) (hf : famOK p.ip a.fam = true)
-      (hg : granted c a.key.lid p.ip = true) (hc : bindConflict a n p = false) :
+      (hg : granted c a.key p.ip = true) (hc : bindConflict a n p = false) :
       Change c now a (addChan now c n p a)
-  | connOut (a : Alloc) (cid : Nat) (p : Addr) (hg : granted c a.key.lid p.ip = true)
+  | connOut (a : Alloc) (cid : Nat) (p : Addr) (hg : granted c a.key p.ip = true)
       (hd : dupeConn a p = false) :
       Change c now a { a with conns := ⟨cid, p, false, none, now + c.bindT, []⟩ :: a.conns }
   | connIn (a : Alloc) (cid : Nat) (p : Addr) (hp : hasPerm a p.ip = true) (hd : dupeConn a p = false) :
@@ -80,9 +80,9 @@ structure Fresh (c : Cfg) (s : State) (k : Key) (a : Alloc) : Prop where
   live : s.now < a.expiry
   relayFree : relayBusy s a.relay a.tcp = false
 
-theorem permLoop_changes (c : Cfg) (now : Nat) (lid : Nat) :
-    ∀ (peers : List (Option Addr)) (a : Alloc), a.key.lid = lid →
-      Changes c now a (permLoop c now lid peers a).1 := by
+theorem permLoop_changes (c : Cfg) (now : Nat) (k : Key) :
+    ∀ (peers : List (Option Addr)) (a : Alloc), a.key = k →
+      Changes c now a (permLoop c now k peers a).1 := by
   intro peers
   induction peers with
   | nil => intro a _; exact .refl a
@@ -97,7 +97,7 @@ theorem permLoop_changes (c : Cfg) (now : Nat) (lid : Nat) :
       · split
         · exact .refl a
         · rename_i hf hg
-          have hg' : granted c a.key.lid p.ip = true := by rw [hl]; simpa using hg
+          have hg' : granted c a.key p.ip = true := by rw [hl]; simpa using hg
           exact .step (.perm a p.ip hg' (by simpa using hf)) (ih _ (by simpa [addPerm] using hl))
 
 end Turn.Srv
@@ -139,7 +139,7 @@ theorem hCreatePerm_ok (c s k tid cr peers) : UpdOK c s k (hCreatePerm c s k tid
     · rename_i a ha
       obtain ⟨hf, _⟩ := ownAlloc_some ha
       have hk := (findAlloc_some hf).2
-      have hc := permLoop_changes c s.now k.lid peers a (by rw [hk])
+      have hc := permLoop_changes c s.now k peers a hk
       split
       · exact Or.inr ⟨a, hf, hc⟩
       · split
@@ -147,8 +147,8 @@ theorem hCreatePerm_ok (c s k tid cr peers) : UpdOK c s k (hCreatePerm c s k tid
         · exact Or.inr ⟨a, hf, hc⟩
   · trivial
 
-theorem bindChecks_ok {c lid a num peer n p} (h : bindChecks c lid a num peer = .ok (n, p)) :
-    chanValid n = true ∧ famOK p.ip a.fam = true ∧ granted c lid p.ip = true ∧ bindConflict a n p = false := by
+theorem bindChecks_ok {c k a num peer n p} (h : bindChecks c k a num peer = .ok (n, p)) :
+    chanValid n = true ∧ famOK p.ip a.fam = true ∧ granted c k p.ip = true ∧ bindConflict a n p = false := by
   cases num with
   | absent => simp [bindChecks] at h
   | bad => simp [bindChecks] at h
@@ -158,7 +158,7 @@ theorem bindChecks_ok {c lid a num peer n p} (h : bindChecks c lid a num peer = 
     | bad => simp only [bindChecks] at h; split at h <;> cases h
     | val p' =>
       by_cases hv : chanValid n' = true <;> by_cases hf : famOK p'.ip a.fam = true <;>
-        by_cases hg : granted c lid p'.ip = true <;> by_cases hc : bindConflict a n' p' = true <;>
+        by_cases hg : granted c k p'.ip = true <;> by_cases hc : bindConflict a n' p' = true <;>
         simp [bindChecks, hv, hf, hg, hc] at h
       obtain ⟨rfl, rfl⟩ := h
       exact ⟨hv, hf, hg, by simpa using hc⟩
@@ -178,15 +178,15 @@ theorem hChanBind_ok (c s k tid cr num peer) : UpdOK c s k (hChanBind c s k tid 
         exact Or.inr ⟨a, hf, .one (.chan a n p hv hfam (by rw [hk]; exact hg) hc)⟩
   · trivial
 
-theorem connectChecks_ok {c s lid a peer dialOK cid p} (h : connectChecks c s lid a peer dialOK cid = some (.ok p)) :
-    peer = .val p ∧ granted c lid p.ip = true ∧ dupeConn a p = false ∧ cidUsed s lid cid = false ∧ p.port ≠ 0 := by
+theorem connectChecks_ok {c s k a peer dialOK cid p} (h : connectChecks c s k a peer dialOK cid = some (.ok p)) :
+    peer = .val p ∧ granted c k p.ip = true ∧ dupeConn a p = false ∧ cidUsed s k.lid cid = false ∧ p.port ≠ 0 := by
   cases peer with
   | absent => simp [connectChecks] at h
   | bad => simp [connectChecks] at h
   | val p' =>
-    by_cases hg : granted c lid p'.ip = true <;> by_cases hp : p'.port = 0 <;>
+    by_cases hg : granted c k p'.ip = true <;> by_cases hp : p'.port = 0 <;>
       by_cases hd : dupeConn a p' = true <;> by_cases hdl : dialOK = true <;>
-      by_cases hu : cidUsed s lid cid = true <;>
+      by_cases hu : cidUsed s k.lid cid = true <;>
       simp [connectChecks, hg, hp, hd, hdl, hu] at h
     subst h
     exact ⟨rfl, hg, by simpa using hd, by simpa using hu, hp⟩
